@@ -128,12 +128,12 @@ package httpserver
 
 //@ unit recorder props=C20,C12 filter=`ResponseRecorder\)\.(Write|WriteHeader)$`
 //@ func (*ResponseRecorder).WriteHeader
-//@   requires r != nil
+//@   requires r != nil && r.ResponseWriterWrapper != nil
 //@   modifies ResponseRecorder.status
 //@   ensures [status] r.status == status
 //@   ensures [size_kept] r.size == old(r.size)
 //@ func (*ResponseRecorder).Write
-//@   requires r != nil
+//@   requires r != nil && r.ResponseWriterWrapper != nil
 //@   modifies ResponseRecorder.size
 //@   ensures [size_ok] result1 == nil ==> r.size == old(r.size) + result0
 //@   ensures [size_err] result1 != nil ==> r.size == old(r.size)
@@ -253,8 +253,10 @@ package httpserver
 //@ define strictMismatch(hn string) bool = vh(hn) != nil && !vh(hn).TLS.InsecureDisableSNIMatching && old(r.TLS) != nil && vh(hn).TLS.ClientAuth != 0 && strings.ToLower(old(r.TLS.ServerName)) != strings.ToLower(hn)
 
 //@ func (*Server).serveHTTP
-//@   requires s != nil && r != nil && r.URL != nil && s.vhosts != nil
+//@   requires s != nil && r != nil && r.URL != nil && s.vhosts != nil && s.Server != nil
 //@   requires forall(k, 0, len(s.sites), s.sites[k] != nil && s.sites[k].TLS != nil && s.sites[k].TLS.Issuer != nil)
+//@   // representation invariant of the server (established by NewServer/InspectServerBlocks, assumed here): every site the trie can return carries a TLS config
+//@   requires forallT(k, string, ret(0, s.vhosts.Match(k)) != nil ==> ret(0, s.vhosts.Match(k)).TLS != nil)
 //@   modifies ghost:chainCalls, ghost:notFound, Request.URL, Request.Close
 //@   ensures [at_most_one_site] chainCalls <= old(chainCalls) + 1
 //@   ensures [no_site_no_handler] notFound > old(notFound) ==> (chainCalls == old(chainCalls) && result0 == 0 && notFound == old(notFound) + 1)
